@@ -18,7 +18,7 @@ type ConsistentHash struct {
 	hash         hash
 	enableWeight bool
 	replicates   int
-	mapValues    map[string]struct{}
+	mapValues    map[string]endpoint.Endpoint
 	hashRing     map[uint32]endpoint.Endpoint
 	sortedKeys   []uint32
 }
@@ -75,7 +75,7 @@ func New(enableWeight bool, hashType HashAlgorithmType) *ConsistentHash {
 		hash:         h,
 		enableWeight: enableWeight,
 		replicates:   selector.ConHashVirtualNodes,
-		mapValues:    make(map[string]struct{}),
+		mapValues:    make(map[string]endpoint.Endpoint),
 		hashRing:     make(map[uint32]endpoint.Endpoint),
 	}
 }
@@ -129,7 +129,7 @@ func (c *ConsistentHash) FindInt32(key uint32) (endpoint.Endpoint, bool) {
 func (c *ConsistentHash) Refresh(eps []endpoint.Endpoint) {
 	c.Lock()
 	defer c.Unlock()
-	c.mapValues = make(map[string]struct{}, len(eps))
+	c.mapValues = make(map[string]endpoint.Endpoint, len(eps))
 	c.hashRing = make(map[uint32]endpoint.Endpoint, len(eps))
 	c.sortedKeys = nil
 	for _, ep := range eps {
@@ -160,17 +160,28 @@ func (c *ConsistentHash) addLocked(ep endpoint.Endpoint) error {
 			p := md5.Sum([]byte(virtualHost))
 			for k := 0; k < 4; k++ {
 				virtualKey := uint32(p[4*k+3]&0xFF)<<24 | uint32(p[4*k+2]&0xFF)<<16 | uint32(p[4*k+1]&0xFF)<<8 | uint32(p[4*k+0]&0xFF)
-				c.hashRing[virtualKey] = ep
-				c.sortedKeys = append(c.sortedKeys, virtualKey)
+				c.setPointLocked(virtualKey, ep)
 			}
 		} else {
-			virtualKey := c.hash.Hash(virtualHost)
-			c.hashRing[virtualKey] = ep
-			c.sortedKeys = append(c.sortedKeys, virtualKey)
+			c.setPointLocked(c.hash.Hash(virtualHost), ep)
 		}
 	}
-	c.mapValues[ep.HashKey()] = struct{}{}
+	c.mapValues[ep.HashKey()] = ep
 	return nil
+}
+
+// setPointLocked makes ep the owner of a ring point unless an endpoint with a smaller hash key
+// already holds it. Two hosts can collide on a 32-bit point; resolving the collision by the hash
+// key instead of by insertion order keeps the ring a function of the endpoint set, so that all
+// clients holding the same set route every key alike.
+func (c *ConsistentHash) setPointLocked(virtualKey uint32, ep endpoint.Endpoint) {
+	old, ok := c.hashRing[virtualKey]
+	if !ok {
+		c.sortedKeys = append(c.sortedKeys, virtualKey)
+	} else if old.HashKey() < ep.HashKey() {
+		return
+	}
+	c.hashRing[virtualKey] = ep
 }
 
 // Remove the ep and all the virtual eps from the key
@@ -181,21 +192,17 @@ func (c *ConsistentHash) Remove(ep endpoint.Endpoint) error {
 		return fmt.Errorf("consistenthash: endpoint %+v already removed", ep)
 	}
 	delete(c.mapValues, ep.HashKey())
-	weight := c.weight(ep.Weight)
-	for i := 0; i < weight; i++ {
-		virtualHost := fmt.Sprintf("%s_%d", ep.HashKey(), i)
-		if c.hash.GetHashType() == KetamaHash {
-			p := md5.Sum([]byte(virtualHost))
-			for k := 0; k < 4; k++ {
-				virtualKey := uint32(p[4*k+3]&0xFF)<<24 | uint32(p[4*k+2]&0xFF)<<16 | uint32(p[4*k+1]&0xFF)<<8 | uint32(p[4*k+0]&0xFF)
-				delete(c.hashRing, virtualKey)
-			}
-		} else {
-			virtualKey := c.hash.Hash(virtualHost)
-			delete(c.hashRing, virtualKey)
-		}
+	// Rebuild the ring from the remaining endpoints instead of deleting the points of ep: a point
+	// that ep shared with another endpoint has to fall to that endpoint, not to disappear, and the
+	// points are those ep was added with, whatever weight the caller passes now.
+	rest := c.mapValues
+	c.mapValues = make(map[string]endpoint.Endpoint, len(rest))
+	c.hashRing = make(map[uint32]endpoint.Endpoint, len(c.hashRing))
+	c.sortedKeys = c.sortedKeys[:0]
+	for _, e := range rest {
+		_ = c.addLocked(e)
 	}
-	c.reBuildHashRingLocked()
+	c.sort()
 	return nil
 }
 
@@ -235,14 +242,6 @@ func (c *ConsistentHash) weight(w int32) int {
 		}
 	}
 	return weight
-}
-
-func (c *ConsistentHash) reBuildHashRingLocked() {
-	c.sortedKeys = make([]uint32, 0, len(c.hashRing))
-	for vk := range c.hashRing {
-		c.sortedKeys = append(c.sortedKeys, vk)
-	}
-	c.sort()
 }
 
 func (c *ConsistentHash) sort() {
